@@ -9,7 +9,8 @@
    must_appear f : f is required and has no declared default.  No hypothesis on the input bytes or on
    the descriptor environment. *)
 From Coq Require Import ZArith List Bool.
-From PBC Require Import Impl.Desc Impl.Mem Impl.Unpack Proofs.ScanInv Proofs.Required.
+From PBC Require Import Impl.Desc Impl.Mem Impl.Unpack Impl.Canon Spec.WireRaw Proofs.ScanInv Proofs.Required.
+From PBC Require Proofs.LeafSafe Proofs.SpecRefine2 Proofs.RequiredSpec.
 Import ListNotations.
 Local Open Scope Z_scope.
 
@@ -41,3 +42,30 @@ Theorem C11_test_is_exact : forall d data md st,
   exists slots, alloc_slots (md_fields md) (st_bitmap st) (st_slots st) = Ok slots.
 Proof. exact required_test_exact. Qed.
 Print Assumptions C11_test_is_exact.
+
+(* ---- "on the wire" read by the REFERENCE READER (Spec/WireRaw.v, the schema-less reader that is compared with
+   libprotobuf on every run) instead of by the implementation's own scan.  For every env_ok schema and every input
+   <= max_input (268435425 bytes) that the reference reader reads as records rs (SpecRefine2.rec_good: the packed
+   payloads of repeated fields among them split into elements): *)
+
+(* a required field without default whose number none of the records carries => the parse is refused *)
+Theorem C11_missing_on_the_wire_is_rejected : forall (E : env), env_ok E = true -> forall d md, nth_error E d = Some md ->
+  forall b rs i f k,
+  LeafSafe.bytes b -> Mem.zlen b <= max_input ->
+  read_raw 5 b = Some rs -> Forall (SpecRefine2.rec_good md) rs ->
+  nth_error (md_fields md) i = Some f -> must_appear f = true ->
+  (forall r, In r rs -> rr_num r <> f_id f) ->
+  unpack E (S k) d b = Err EFail.
+Proof. exact RequiredSpec.missing_on_the_wire_rejected. Qed.
+Print Assumptions C11_missing_on_the_wire_is_rejected.
+
+(* every such field carried by at least one record => the required-field test lets the message through *)
+Theorem C11_present_on_the_wire_passes : forall (E : env), env_ok E = true -> forall d md, nth_error E d = Some md ->
+  forall b rs,
+  LeafSafe.bytes b -> Mem.zlen b <= max_input ->
+  read_raw 5 b = Some rs -> Forall (SpecRefine2.rec_good md) rs ->
+  (forall i f, nth_error (md_fields md) i = Some f -> must_appear f = true -> exists r, In r rs /\ rr_num r = f_id f) ->
+  exists st slots, scan_loop (S (length b)) md (st_init d md b) = Ok st /\
+                   alloc_slots (md_fields md) (st_bitmap st) (st_slots st) = Ok slots.
+Proof. exact RequiredSpec.present_on_the_wire_passes. Qed.
+Print Assumptions C11_present_on_the_wire_passes.
